@@ -50,8 +50,7 @@ def run(tier):
     drv = vp.build("c09_driver", ["c09_driver.cpp"], [])
     tpath = os.path.join(wd, "c09.ndjson")
     p = vp.run([drv, spath, tpath], timeout=1100)
-    if p.returncode != 0:
-        raise vp.Broken("c09_driver rc=%d %s" % (p.returncode, p.stderr[-300:]))
+    vp.exit_ok(p, "c09_driver")
     events = vp.read_ndjson(tpath)
     # the "single" schedules again on the backend variant with the grant / deny interface (refusing)
     gpath, gtpath = os.path.join(wd, "schedules_gd.txt"), os.path.join(wd, "c09_gd.ndjson")
@@ -59,8 +58,7 @@ def run(tier):
         f.write("\n".join(l for l in lines if l.startswith("single ")) + "\n")
     gdrv = vp.build("c09_driver_gd", ["c09_driver.cpp"], ["-DVM_GRANT_DENY"])
     p = vp.run([gdrv, gpath, gtpath], timeout=1100)
-    if p.returncode != 0:
-        raise vp.Broken("c09_driver_gd rc=%d %s" % (p.returncode, p.stderr[-300:]))
+    vp.exit_ok(p, "c09_driver_gd")
     gev = vp.read_ndjson(gtpath)
     if not gev:
         raise vp.Broken("no executions recorded on the grant/deny backend variant")
